@@ -73,6 +73,9 @@ func occurrences(nn []*doc.Node) (live map[string][]*doc.Node, deadOnly map[stri
 }
 
 func runC18(c *fw.Ctx) {
+	if ioFaultHook != nil {
+		ioFaultHook(c, "C18")
+	}
 	dir := drv.NewDir(fw.Scratch("c18"))
 	defer os.RemoveAll(filepath.Dir(dir.Path))
 	defer dir.Close()
